@@ -18,7 +18,8 @@ func init() {
 			"(4) inputs outlive outputs — obsolete-marking/cleanup in runCompactionCycle and DeleteCompactedFiles in CompactRange are dominated by a successful CompactFiles; an output path is recorded only after its Finish succeeded; CleanupObsoleteFiles skips pending files; " +
 			"(5) SSTableInfo.Overlaps is the closed-interval overlap test (table over boundary-touching ranges); the block builder rejects keys that are not strictly ascending; " +
 			"(6) the SSTable list is sorted by recency at load (C01 rule); (7) WAL retention never collects the current log file and deletes by sequence only when MaxSeq < MinSequenceKeep. " +
-			"Added after blind round 4: the key range handed to the level-1 overlap test is the union of the selected files (decision table of one loop iteration: minimum and maximum updated independently); every sort.Slice comparator indexes the slice being sorted (no parallel key slice).",
+			"Added after blind round 4: the key range handed to the level-1 overlap test is the union of the selected files (decision table of one loop iteration: minimum and maximum updated independently); every sort.Slice comparator indexes the slice being sorted (no parallel key slice). " +
+			"Added after blind round 5: the default executor receives the tombstone tracker after it was defaulted (non-nil by construction).",
 		NotDecided: "equality of merged views for all workloads (values); which selections a workload triggers; the interaction 'log file retired while its data is only in memory' (the code has no notion of flushed-up-to: remark, not verdict).",
 		Rules:      []func(*Ctx, *Reporter){ruleCompactSourceOrder, ruleMergePolicy, ruleCompactDecisionTable, ruleTombstoneFilterTable, ruleInputsOutliveOutputs, ruleOverlapsTable, ruleBuilderStrictOrder, ruleRecencyAtLoad, ruleRetention, ruleUnionRange, ruleSortKeysFromSortedSlice, ruleExecutorGetsTracker},
 	})
